@@ -31,10 +31,13 @@ import FGVerif.Proofs.C14
                               (proved equal to the number of samples: `C14.total`) gives on the generated
                               shipped configuration — kernel arithmetic (`C14.da_count_pos/neg`).
 
-  **test**, not a theorem: the reaction-centre shape of every shipped Diels-Alder sample
-  (`daCentreOk`: single 6-cycle of carbons, label multiset, explicit-valence bound) is evaluated by
-  the compiled driver over the complete enumeration (thorough) / 300 random samples per mode (quick),
-  both on the model's samples and on the implementation's; RDKit sanitisation is checked by the harness only.
+  The reaction-centre SHAPE of every shipped Diels-Alder sample (single 6-cycle of carbons, label multiset, no other
+  changing bond) is a theorem about the model on the regenerated configuration, without enumeration:
+  `C15.da_rc_shape_thm` (`Proofs/C15Rc.lean`, general lemmas in `Proofs/C15RcA/B.lean`).
+
+  **test**, not a theorem: the explicit-valence bound of the same clause (`daCentreOk`, which also re-checks the
+  shape) is evaluated by the compiled driver over the complete enumeration (thorough) / 300 random samples per mode
+  (quick), both on the model's samples and on the implementation's; RDKit sanitisation is checked by the harness only.
 -/
 namespace C15
 open C13 C14 Graph
